@@ -20,7 +20,7 @@ const OPS: &[&str] = &[
     "mint", "mint_from", "transfer", "approve", "transfer_from", "burn", "burn_from", "add_minter",
     "remove_minter", "transfer_ownership", "advance",
 ];
-const AMOUNTS: &[&str] = &["zero", "one", "balance", "balance+1", "allowance", "allowance+1", "i128-max", "negative", "small"];
+const AMOUNTS: &[&str] = &["zero", "one", "balance", "balance+1", "allowance", "allowance+1", "i128-max", "negative", "small", "2^64+1", "2^96"];
 const EXPIRIES: &[&str] = &["seq-1", "seq", "seq+1", "seq+15", "seq+16", "seq+17", "seq+1000", "far"];
 
 #[derive(Clone)]
@@ -115,6 +115,8 @@ pub fn run(ctx: &Ctx, rep: &mut Report) {
                 "allowance+1" => allow_ref.saturating_add(1),
                 "i128-max" => i128::MAX,
                 "negative" => -1 - rng.below(3) as i128,
+                "2^64+1" => (1i128 << 64) + 1,
+                "2^96" => 1i128 << 96,
                 _ => 1 + rng.below(1000) as i128,
             };
             let tk = tok.clone();
